@@ -99,8 +99,8 @@ def check_one(rep: common.Report, label: str, tp: Any, expected: Dict[bool, set]
 
 CLASH_SRC = '''
 from dataclasses import dataclass
-from typing import List, NewType
-from apischema import type_name
+from typing import List, NamedTuple, NewType, Optional, Union
+from apischema import deserializer, serializer, type_name
 
 @type_name("Same")
 @dataclass
@@ -149,6 +149,45 @@ class LegacyFoo:
 def to_legacy(foo: Foo) -> LegacyFoo:
     return LegacyFoo(foo.a)
 
+class Quantity:
+    def __init__(self, v):
+        self.v = v
+
+
+@deserializer
+def quantity_from_int(i: int) -> Quantity:
+    return Quantity(i)
+
+
+@deserializer
+def quantity_from_str(s: str) -> Quantity:
+    return Quantity(int(s))
+
+
+class Maybe:
+    pass
+
+
+@serializer
+def maybe_to_optional(m: Maybe) -> Optional[int]:
+    return None
+
+
+@dataclass
+class Node:
+    ident: int
+    nxt: Optional["Node"] = None
+
+
+class Edge(NamedTuple):
+    src: Node
+    dst: Node
+
+
+def node_to_id(node: Node) -> int:
+    return node.ident
+
+
 @type_name(lambda tp, *args: "Fac_" + tp.__name__)
 @dataclass
 class ByFactory:
@@ -195,6 +234,46 @@ def naming_cases(rep: common.Report) -> int:
         for r in refs:
             if r[len("#/$defs/"):] not in got:
                 rep.violation(f"definitions_schema(serialization=[(Foo, conv), List[Foo]]): dangling reference {r}", {"got": got})
+    # conversions: a converted alternative that is itself multi-typed, merged into a union
+    import jsonschema
+    from typing import Optional, Union
+
+    from apischema.json_schema import JsonSchemaVersion
+
+    for label, fn, tp in (("deserialization_schema(Union[Quantity, str])", deserialization_schema, Union[mod.Quantity, str]),
+                          ("serialization_schema(Optional[Maybe])", serialization_schema, Optional[mod.Maybe])):
+        for version, vcls in ((JsonSchemaVersion.DRAFT_2020_12, jsonschema.Draft202012Validator),
+                              (JsonSchemaVersion.DRAFT_2019_09, jsonschema.Draft201909Validator),
+                              (JsonSchemaVersion.DRAFT_7, jsonschema.Draft7Validator)):
+            n += 1
+            schema = fn(tp, version=version)
+            try:
+                vcls.check_schema(schema)
+            except jsonschema.SchemaError as err:
+                rep.violation(f"{label}: not valid against its own meta-schema: {err.message[:150]}", {"schema": schema})
+    # a dynamic conversion does not reach the fields of an object, NamedTuple included: the named
+    # type of the fields is still extracted, and a recursive one does not make generation diverge
+    for all_refs, want in ((True, {"Edge", "Node"}), (False, {"Node"})):
+        for fn, key in ((serialization_schema, "serialization"), (deserialization_schema, "deserialization")):
+            n += 1
+            conv = mod.node_to_id if fn is serialization_schema else None
+            signal.signal(signal.SIGALRM, _alarm)
+            signal.alarm(20)
+            try:
+                got = set(fn(List[mod.Edge], conversion=conv, all_refs=all_refs).get("$defs", {}))
+                dgot = set(definitions_schema(**{key: [(List[mod.Edge], conv)]}, all_refs=all_refs))
+            except Timeout:
+                rep.violation(f"{fn.__name__}(List[Edge], conversion=node_to_id): does not terminate", {})
+                continue
+            except RecursionError:
+                rep.violation(f"{fn.__name__}(List[Edge], conversion=node_to_id, all_refs={all_refs}) raised RecursionError", {})
+                continue
+            finally:
+                signal.alarm(0)
+            if got != want or dgot != want:
+                rep.violation(f"{fn.__name__}(List[Edge], conversion={'node_to_id' if conv else None}, all_refs={all_refs}): $defs = {sorted(got)} / "
+                              f"definitions_schema = {sorted(dgot)}, expected {sorted(want)} (a dynamic conversion is local: it does not reach "
+                              "the fields of the NamedTuple)", {})
     for fn in (deserialization_schema, serialization_schema):
         n += 1
         try:
